@@ -85,27 +85,38 @@ def render_pat_s(p):
 
 
 def w_struct_init_block_guard(chk):
-    """struct_init_block returns before rendering when a non-From conversion has hint Unit (so '2' is unreachable at top level)."""
-    fi = chk.repo.fn(EXPAND, "struct_init_block")
-    first = fi.body["stmts"][0]
-    if first["k"] != "ExprStmt" or first["expr"]["k"] != "If":
-        return False
-    c = render(first["expr"]["cond"]).replace(" ", "")
-    body = render(first["expr"]["then"]).replace(" ", "")
-    return "!ctx.kind.is_from()&&(ctx.struct_attr.type_hint==TypeHint::Unit)" in c.replace("((", "(").replace("))", ")") or \
-        ("!ctx.kind.is_from()" in c and "TypeHint::Unit" in c and "returnTokenStream::new()" in body)
+    """struct_init_block returns before rendering when a non-From conversion has hint Unit (so '2' is unreachable at top level).
+    Semantic: read from the decision table of struct_init_block itself."""
+    from ..linetables import fn_table
+    from ..tables import direction
+    T = fn_table(chk.repo, "struct_init_block", cache_name="fn_struct_init_block_own")
+    seen = 0
+    for lf in T["leaves"]:
+        k = lf.get("ctx.kind")
+        if k and direction(k) != "From" and lf.get("ctx.struct_attr.type_hint") == "Unit":
+            seen += 1
+            if lf.kind != "ok" or lf.toks is None or lf.toks:
+                return False
+    return True if seen >= 4 else None
 
 
 def w_ghost_groups(chk):
     fi = chk.repo.fn(EXPAND, "struct_init_block")
     src = render(fi.body).replace(" ", "")
-    return 'group_paths.insert("".into(),0)' in src and "res.1.then_some(res.0)" in src and "FieldData::GhostData(x)" in src and "x.get_child_path_str(None)" in src
+    ok = 'group_paths.insert("".into(),0)' in src and "res.1.then_some(res.0)" in src and "FieldData::GhostData(x)" in src and "x.get_child_path_str(None)" in src
+    if ok:
+        return True
+    if "FieldData::GhostData(" in src and "then_some" not in src and "filter" not in src:
+        return False  # every ghost entry becomes a group member, also those without a child path
+    return None
 
 
 def w_parent_postcondition(chk):
     fi = chk.repo.fn(ATTR, "parameterized_parent_attr", impl="MemberAttrs")
     finds = list(method_calls(fi.body, "find"))
-    return len(finds) == 2 and all("child_fields.is_some()" in render(f["args"][0]).replace(" ", "") for f in finds)
+    if len(finds) != 2:
+        return None
+    return all("child_fields.is_some()" in render(f["args"][0]).replace(" ", "") for f in finds)
 
 
 def w_filter_is_some(chk):
@@ -114,7 +125,7 @@ def w_filter_is_some(chk):
         if n["k"] == "For" and "container_ty.is_some()" in render(n["iter"]).replace(" ", "") and ".filter(" in render(n["iter"]):
             if "container_ty.as_ref().unwrap()" in render(n["body"]).replace(" ", ""):
                 return True
-    return False
+    return None
 
 
 def w_parent_bark(chk):
@@ -123,7 +134,9 @@ def w_parent_bark(chk):
         if n["k"] == "Arm" and "DataTypeMember::Variant" in render_pat_s(n["pat"]):
             if re.search(r'bark_at_member_attr\(&member_attrs\.parent_attrs,\s*"parent"', render(n["body"])):
                 return True
-    return False
+            if "parent_attrs" not in render(n["body"]):
+                return False  # variants' parent instructions are no longer looked at
+    return None
 
 
 def w_named_fields_callers(chk):
@@ -141,7 +154,7 @@ def w_named_fields_callers(chk):
 def w_peek_then_parse(chk, fn_name, token):
     fi = chk.repo.fn(ATTR, fn_name)
     src = render(fi.body).replace(" ", "")
-    return token in src
+    return True if token in src else None
 
 
 # site-key regex (+ optional root / subcase) -> (class, reason, witness)
@@ -351,9 +364,15 @@ def run(chk):
                     cls, reason, wit = ent
                     wk = (cls, reason)
                     if wk not in wit_cache:
-                        wit_cache[wk] = True if wit is None else bool(wit(chk))
-                        chk.expect("R3", f"witness[{cls}: {reason[:80]}]", wit_cache[wk], f, s["line"], "the argument that discharges this panic site no longer holds")
-                    chk.expect("R1", okey, wit_cache[wk], f, s["line"], f"{cls} discharge failed: {reason}", detail={"class": cls, "reason": reason, "paths": len(decs)})
+                        res_ = True if wit is None else wit(chk)
+                        wit_cache[wk] = res_
+                        if res_ is None:
+                            chk.inconc("R3", f"witness[{cls}: {reason[:80]}]: the code shape the argument was confirmed on is no longer recognised")
+                        else:
+                            chk.expect("R3", f"witness[{cls}: {reason[:80]}]", bool(res_), f, s["line"], "the argument that discharges this panic site no longer holds")
+                    if wit_cache[wk] is None:
+                        continue
+                    chk.expect("R1", okey, bool(wit_cache[wk]), f, s["line"], f"{cls} discharge failed: {reason}", detail={"class": cls, "reason": reason, "paths": len(decs)})
     chk.unit("panic_capable_sites", nsites)
     if nsites < 100:
         chk.inconc("R1", f"only {nsites} panic-capable sites enumerated (< 100 confirmed by hand)")
